@@ -50,8 +50,11 @@ func main() {
 			fmt.Fprintln(os.Stderr, err)
 			os.Exit(2)
 		}
-		c.Exec()
-		okk, msg := c.Oracle()
+		pmsg := safeExec(c)
+		okk, msg := false, pmsg
+		if pmsg == "" {
+			okk, msg = c.Oracle()
+		}
 		js, _ := json.MarshalIndent(c, "", " ")
 		fmt.Printf("%s\noracle_ok=%v %s\n", js, okk, msg)
 		if !okk {
